@@ -179,7 +179,8 @@ new7 = '''## 7. Trusting the monitors: seeded changes
    two harness false alarms (§9: ORDER BY near-ties, the stuck-producer verdict) and one more genuine defect
    (§6: C06-select-or-with-function-over-null) that the quick tier does not reach.
    After the stream `c05unsigned` was added (C05-K), C05 was re-run from fresh processes: quick at seeds
-   1, 2, 3, 5, 7, 42 and thorough at seed 1, all silent (1152 unsigned decisions per run).
+   1, 2, 3, 5, 7, 42 and thorough at seed 1, all silent (1152 unsigned decisions per run); the whole quick tier (20 checks) was then run once more at a
+   fresh seed (11): silent apart from the listed known findings.
 2. **Seeded changes.**  For every property a fresh sub-agent was given *only* the property text and a scratch
    worktree, and asked for two realistic changes (A, B) that break the property while the library still compiles
    and its suite still passes, each needing something specific to manifest, with a demonstration test.  A second
